@@ -333,6 +333,22 @@ def run_impl(L, scenarios):
 
 
 # ----------------------------------------------------------------------------------------------- oracle
+def overlapping(s, user):
+    """some request of `user` arrives while another request of that user with a DIFFERENT password is still waiting
+    for its (scripted) helper reply"""
+    inflight = {}
+    for e in s["events"]:
+        if e[0] == "a":
+            r = s["reqs"][e[1]]
+            if r["kind"] == "ok" and r["u"].lower() == user:
+                if any(p != r["p"] for p in inflight.values()):
+                    return True
+                inflight[e[1]] = r["p"]
+        elif e[0] == "r":
+            inflight.pop(e[1], None)
+    return False
+
+
 def oracle(s, obs):
     """The property on what squid did. The helper accepts exactly the passwords starting with `ok`.
     - a request without credentials that decode to user:password must get 407 and must not reach the origin;
@@ -365,8 +381,10 @@ def oracle(s, obs):
         if got != own:
             return ("oracle:identity-mixed", "request %d (user %s) was forwarded and logged as %s" % (i + 1, own, got))
         if not r["p"].startswith("ok"):
-            # the known defect needs another request naming the same user with a password the helper accepts
-            race = any(q["kind"] == "ok" and q["u"].lower() == r["u"].lower() and q["p"].startswith("ok") for q in reqs)
+            # the known defect needs (a) another request naming the same user with a password the helper accepts and
+            # (b) two requests of that user with different passwords in flight at the same time
+            race = any(q["kind"] == "ok" and q["u"].lower() == r["u"].lower() and q["p"].startswith("ok") for q in reqs) \
+                and overlapping(s, r["u"].lower())
             return ("oracle:rejected-credentials-forwarded" + (":shared-user-race" if race else ""),
                     "request %d presented %s:%s, which the helper rejects, and was forwarded (logged as %s)"
                     % (i + 1, own, r["p"], got))
